@@ -2,6 +2,8 @@ package main
 
 import (
 	"fmt"
+	"go.pennock.tech/tabular"
+	"go.pennock.tech/tabular/texttable"
 	"reflect"
 	"strings"
 	"time"
@@ -45,7 +47,7 @@ func init() {
 		ID:        "C03",
 		Level:     "exploration",
 		Technique: "bounded exhaustive input/configuration enumeration (cell-text assignments, table shapes, every registered and custom decoration) rendered by the real code and compared line by line with a reference renderer transcribed from the statement, plus a whole-line width invariant in the library's measure",
-		Rule: "family texts: 7 fixed shapes x every assignment of a 10-atom pool {a, empty, abc, two-line, trailing-LF, lone LF, double-width, combining, zero-width, ZWJ emoji} to <=4 cells x 3 (thorough 7) decorations; " +
+		Rule: "family lifecycle: one table and one long-lived wrapper, every sequence of <=4 (thorough 5) in-place modifications (items mutated to same-width/wider/narrower/multi-line text + Update, headers replaced incl. a swap that moves width between columns, rows grown), Render and failed RenderTo, each Render compared with the reference for the current content; family texts: 7 fixed shapes x every assignment of a 10-atom pool {a, empty, abc, two-line, trailing-LF, lone LF, double-width, combining, zero-width, ZWJ emoji} to <=4 cells x 3 (thorough 7) decorations; " +
 			"family pairs: a 3x3 grid with header where every pair of positions ranges over the full pool; family shapes: header none/0..3, <=3 rows of sep|0..3 cells with >=1 column, 3 text patterns, all 6 registered decorations + 1 custom; " +
 			"family decorations: 2 grids x custom Decoration{} with every subset of the 3 seed glyphs x each single other field (thorough: all subsets of <=3 fields) after Populate; family populate: Populate on every subset of the 22 fields with <=2 (thorough: all 2^22) members: all fields non-empty, set fields kept; " +
 			"non-trivial = grid with multi-line/wide/zero-width text, ragged/zero-cell rows or separators, or a custom decoration; distinct by (grid, decoration)",
@@ -175,6 +177,18 @@ func runC03(x *X) {
 		compareTextTable(x, "C03", tg, dc, append(g.Tags(), "decoration:"+dc.Name))
 	})
 
+	ldepth := x.Pick(4, 5)
+	lops := lifeOps(false, false)
+	x.Explore("lifecycle", ExploreOpts{ShardDepth: 2, Bound: fmt.Sprintf("one table + one long-lived text wrapper (2 decorations): all sequences of <=%d operations over %d in-place modifications, Render, failed RenderTo", ldepth, len(lops))}, func(c *Chooser) {
+		dc := []DecorChoice{quickDecors[0], quickDecors[1]}[c.Choose(2)]
+		lifecycle(x, c, "C03", ldepth, lops, false, func(t tabular.Table) lifeRenderer {
+			tt := texttable.Wrap(t)
+			dc.Apply(tt)
+			return tt
+		}, func(m *lifeModel, tags []string, out string, err error) {
+			judgeTextTable(x, "C03", m.tgrid(), dc, append(tags, "decoration:"+dc.Name), out, err)
+		})
+	})
 	wide := WideGrids()
 	x.Explore("wide", ExploreOpts{ShardDepth: 2, Bound: "4 tables of 10-13 columns x a multi-line/wide text in each column position in turn x all decorations"}, func(c *Chooser) {
 		g0 := wide[c.Choose(len(wide))]
